@@ -118,3 +118,19 @@ func zzStartHoleWorker() {
 	types.DrainOps = 0
 	go CreateHoles()
 }
+
+func zzBlobFstat(fd int, st *syscall.Stat_t) error {
+	f := zzBlobs[uintptr(fd)]
+	if f == nil {
+		return syscall.EBADF
+	}
+	var blocks int64
+	for i := 0; i < f.blocks; i++ {
+		if f.present[i] {
+			blocks += 8
+		}
+	}
+	st.Blocks = blocks
+	st.Size = int64(f.blocks) * 4096
+	return nil
+}
